@@ -298,7 +298,14 @@ impl Compiler {
                 self.compile_expression(expr)?;
                 self.emit_opcode(OpCode::Pop);
             }
-            Stmt::Block(stmts) => self.compile_block_statement(stmts)?,
+            Stmt::Block(stmts) => {
+                self.compile_block_statement(stmts)?;
+
+                // an empty block pushes a null, which a statement has to discard again
+                if stmts.is_empty() {
+                    self.emit_opcode(OpCode::Pop);
+                }
+            }
             Stmt::Let(name, value) => {
                 let symbol = self.symbols.define(name);
                 self.compile_expression(value)?;
